@@ -586,6 +586,31 @@ func (g *vfGen) dense() []byte {
 	return []byte(sb.String())
 }
 
+// attrHeavy: start tags with 1..3 attributes, between comments, text with entities, raw text and
+// doctypes (the token kinds whose saved spans the tokenizer has to keep valid across a refill)
+func (g *vfGen) attrHeavy() []byte {
+	var sb strings.Builder
+	for n := 3 + g.r.Intn(8); n > 0; n-- {
+		switch x := g.r.Intn(10); {
+		case x < 6:
+			sb.WriteString("<" + g.pick(vfTagNames))
+			for k := 1 + g.r.Intn(3); k > 0; k-- {
+				sb.WriteString(g.ws() + g.attr())
+			}
+			sb.WriteString(g.pick([]string{">", ">", " >", "/>"}))
+		case x < 7:
+			sb.WriteString(g.comment())
+		case x < 8:
+			sb.WriteString(g.text(1 + g.r.Intn(3)))
+		case x < 9:
+			sb.WriteString(g.rawElement())
+		default:
+			sb.WriteString(g.doctype())
+		}
+	}
+	return []byte(sb.String())
+}
+
 // input: the mixed population used by all three properties
 func (g *vfGen) input() []byte {
 	switch x := g.r.Intn(20); {
@@ -608,10 +633,15 @@ func (g *vfGen) input() []byte {
 
 // ---------------------------------------------------------------- readers
 
+// vfChunkReader delivers b in bounded reads: mode n > 0: at most n bytes per Read (1 = like
+// iotest.OneByteReader); mode -1: random sizes 1..37 with occasional (0, nil) reads and a final
+// (n, io.EOF).  The tokenizer compacts its buffer (moving the current token to the front and
+// shifting every saved span) each time the buffered bytes are used up and more arrive, so short
+// reads exercise that path inside every token; whole delivery exercises it at 4096, 8192, ...
 type vfChunkReader struct {
 	b    []byte
 	r    *rand.Rand
-	mode int // 1: one byte at a time; 2: random chunks, occasional (0, nil) and (n, EOF)
+	mode int
 	zero int
 }
 
@@ -622,8 +652,8 @@ func (c *vfChunkReader) Read(p []byte) (int, error) {
 	if len(p) == 0 {
 		return 0, nil
 	}
-	n := 1
-	if c.mode == 2 {
+	n := c.mode
+	if c.mode < 0 {
 		if c.zero < 3 && c.r.Intn(8) == 0 {
 			c.zero++
 			return 0, nil
@@ -639,17 +669,32 @@ func (c *vfChunkReader) Read(p []byte) (int, error) {
 	}
 	copy(p, c.b[:n])
 	c.b = c.b[n:]
-	if len(c.b) == 0 && c.mode == 2 && c.r.Intn(2) == 0 {
+	if len(c.b) == 0 && c.mode < 0 && c.r.Intn(2) == 0 {
 		return n, io.EOF
 	}
 	return n, nil
 }
 
+// vfReader: mode 0 = the whole input in one bytes.Reader.
 func vfReader(b []byte, mode int, r *rand.Rand) io.Reader {
 	if mode == 0 {
 		return bytes.NewReader(b)
 	}
 	return &vfChunkReader{b: b, r: r, mode: mode}
+}
+
+var vfChunkModes = []int{0, 0, 1, 2, 3, 7, 64, -1, -1}
+
+func vfPickChunk(r *rand.Rand) int { return vfChunkModes[r.Intn(len(vfChunkModes))] }
+
+// vfPad returns a comment "<!--ppp...-->" such that byte number boundary of pad+in (4096, 8192:
+// where a tokenizer reading from one big reader refills) falls k bytes into in.
+func vfPad(boundary, k int) (string, int) {
+	n := boundary - k - len("<!---->")
+	if n < 0 {
+		n = 0
+	}
+	return "<!--" + strings.Repeat("p", n) + "-->", n
 }
 
 // ---------------------------------------------------------------- C39
@@ -697,7 +742,7 @@ func TestVerifHtmlScan(t *testing.T) {
 				maxbuf = 4090 + r.Intn(12)
 			}
 		}
-		chunk := r.Intn(3)
+		chunk := vfPickChunk(r)
 		cdata := r.Intn(3) == 0
 		ctx := ""
 		if r.Intn(5) == 0 {
@@ -785,6 +830,28 @@ func vfProj(t Token) vfTokProj {
 	p := vfTokProj{Ty: int(t.Type), Data: vfIntsS(t.Data), Attrs: [][][]int{}}
 	for _, a := range t.Attr {
 		p.Attrs = append(p.Attrs, [][]int{vfIntsS(a.Key), vfIntsS(a.Val)})
+	}
+	return p
+}
+
+// vfProjLong is vfProj with byte strings longer than 256 bytes replaced by <<65536, len, digest>>
+// (the padding comments of the delivery traces are thousands of bytes long).
+func vfProjLong(t Token) vfTokProj {
+	ab := func(x []int) []int {
+		if len(x) <= 256 {
+			return x
+		}
+		b := make([]byte, len(x))
+		for i, v := range x {
+			b[i] = byte(v)
+		}
+		d := vfDigest(b)
+		return []int{65536, len(x), d[1], d[2]}
+	}
+	p := vfProj(t)
+	p.Data = ab(p.Data)
+	for i := range p.Attrs {
+		p.Attrs[i][0], p.Attrs[i][1] = ab(p.Attrs[i][0]), ab(p.Attrs[i][1])
 	}
 	return p
 }
@@ -1026,10 +1093,11 @@ func TestVerifHtmlEsc(t *testing.T) {
 		if r.Intn(8) == 0 {
 			ctx = g.pick([]string{"title", "textarea", "div"})
 		}
+		chunk := vfPickChunk(r)
 		var evs []map[string]any
 		res := vfCatchTimeout(10*time.Second, func() {
 			seen := map[string]bool{}
-			z := NewTokenizerFragment(bytes.NewReader(in), ctx)
+			z := NewTokenizerFragment(vfReader(in, chunk, r), ctx)
 			z.AllowCDATA(cdata)
 			for steps := 0; steps <= len(in)+16 && len(evs) < vfTokPer-1; steps++ {
 				tt := z.Next()
@@ -1080,6 +1148,25 @@ func TestVerifHtmlEsc(t *testing.T) {
 		r := env.Rand(int64(tr))
 		g := vfNewGen(r)
 		doc := g.vfBuildTree()
+		// delivery: the rendering reaches the parser in bounded reads, or (one tree in three) behind a
+		// comment that puts the 4096 / 8192 refill boundary inside the tree's markup
+		chunk := vfPickChunk(r)
+		padBoundary := 0
+		if r.Intn(3) == 0 {
+			var plain bytes.Buffer
+			if vfCatch(func() { Render(&plain, doc) }) == "" && plain.Len() > 40 {
+				const pre, post = len("<html><head></head><body>"), len("</body></html>")
+				padBoundary = 4096 * (1 + r.Intn(2))
+				k := pre + r.Intn(plain.Len()-pre-post+1) // the boundary falls k bytes into the unpadded rendering
+				if r.Intn(2) == 0 {
+					chunk = 0
+				}
+				pad, _ := vfPad(padBoundary, k)
+				body := doc.FirstChild.LastChild
+				body.InsertBefore(&Node{Type: CommentNode, Data: pad[4 : len(pad)-3]}, body.FirstChild)
+				body.AppendChild(&Node{Type: CommentNode, Data: strings.Repeat("t", padBoundary+200)})
+			}
+		}
 		in := vfRP{Texts: [][]int{}, Attrs: []vfRPAttr{}}
 		b0 := 100000
 		vfProjTree(doc, &in, &b0)
@@ -1092,15 +1179,103 @@ func TestVerifHtmlEsc(t *testing.T) {
 				return
 			}
 			var doc2 *Node
-			doc2, perr = Parse(bytes.NewReader(buf.Bytes()))
+			doc2, perr = Parse(vfReader(buf.Bytes(), chunk, r))
 			if perr == nil {
 				b1 := 100000
 				vfProjTree(doc2, &out, &b1)
 			}
 		})
 		if !vfEmitFault(env, tr, res) {
-			env.Emit(tr, map[string]any{"e": "rp", "rerr": rerr != nil, "perr": perr != nil, "in": in, "out": out,
-				"html": vfInts(buf.Bytes())})
+			ev := map[string]any{"e": "rp", "rerr": rerr != nil, "perr": perr != nil, "in": in, "out": out,
+				"chunk": chunk, "pad": padBoundary, "len": buf.Len()}
+			if buf.Len() <= 1500 {
+				ev["html"] = vfInts(buf.Bytes())
+			}
+			env.Emit(tr, ev)
+		}
+	}
+	// delivery independence: the same bytes, delivered whole / in bounded reads / behind a padding
+	// comment that moves the 4096 or 8192 refill boundary into the input, must give the same tokens
+	ndlv := env.Int("dlv", 100)
+	for i := 1; i <= ndlv && !env.Hung; i++ {
+		tr := rpBase + nrp + i
+		if !env.Only(tr) {
+			continue
+		}
+		r := env.Rand(int64(tr))
+		g := vfNewGen(r)
+		in := g.attrHeavy()
+		if r.Intn(3) == 0 {
+			in = g.input()
+		}
+		if len(in) > 400 {
+			in = in[:400]
+		}
+		cdata := r.Intn(4) == 0
+		chunk, padLen, boundary := 0, 0, 0
+		delivered := in
+		switch r.Intn(3) {
+		case 0:
+			chunk = []int{1, 2, 3, 7, 16, 31, 64, -1}[r.Intn(8)]
+		default:
+			boundary = 4096 * (1 + r.Intn(2))
+			k := r.Intn(len(in) + 1)
+			if r.Intn(2) == 0 {
+				// steer the boundary into the second half of a start tag (found by a reference pass)
+				var spots []int
+				vfCatch(func() {
+					z := NewTokenizer(bytes.NewReader(in))
+					z.AllowCDATA(cdata)
+					off := 0
+					for steps := 0; steps <= len(in)+16; steps++ {
+						tt := z.Next()
+						if tt == ErrorToken {
+							break
+						}
+						n := len(z.Raw())
+						if (tt == StartTagToken || tt == SelfClosingTagToken) && n > 6 {
+							spots = append(spots, off+n/2+r.Intn(n-n/2))
+						}
+						off += n
+					}
+				})
+				if len(spots) > 0 {
+					k = spots[r.Intn(len(spots))]
+				}
+			}
+			// a trailing comment longer than the buffer: the refill after the boundary then overwrites
+			// the whole buffer (stale spans would otherwise still find the old bytes behind len(buf))
+			in = append(in, []byte("<!--"+strings.Repeat("t", boundary+200)+"-->")...)
+			var pad string
+			pad, padLen = vfPad(boundary, k)
+			delivered = append([]byte(pad), in...)
+			if r.Intn(3) == 0 {
+				chunk = []int{7, 64, -1}[r.Intn(3)]
+			}
+		}
+		tokens := func(b []byte, mode int) []vfTokProj {
+			out := []vfTokProj{}
+			z := NewTokenizer(vfReader(b, mode, r))
+			z.AllowCDATA(cdata)
+			for steps := 0; steps <= len(b)+16; steps++ {
+				if z.Next() == ErrorToken {
+					break
+				}
+				out = append(out, vfProjLong(z.Token()))
+			}
+			return out
+		}
+		var w, c []vfTokProj
+		res := vfCatchTimeout(10*time.Second, func() {
+			w = tokens(in, 0)
+			c = tokens(delivered, chunk)
+		})
+		if !vfEmitFault(env, tr, res) {
+			ev := map[string]any{"e": "dlv", "w": w, "c": c, "pad": padLen, "chunk": chunk, "boundary": boundary}
+			if len(in) <= 600 {
+				ev["input"] = vfInts(in)
+			}
+			env.Emit(tr, ev)
 		}
 	}
 	env.Finish(nil)
@@ -1242,15 +1417,16 @@ func TestVerifHtmlTree(t *testing.T) {
 			script bool
 			form   bool
 			enc    bool
+			chunk  int
 		}
-		cfgs := []cfg{{script: true}, {script: false}}
+		cfgs := []cfg{{script: true, chunk: vfPickChunk(r)}, {script: false, chunk: vfPickChunk(r)}}
 		for len(cfgs) < vfCfgPerInput {
 			cx := vfContexts[r.Intn(len(vfContexts))]
 			if r.Intn(7) == 0 {
 				cx = vfCtx{} // no context element
 			}
 			cfgs = append(cfgs, cfg{frag: true, ctx: cx, script: r.Intn(3) != 0,
-				form: r.Intn(6) == 0, enc: r.Intn(2) == 0})
+				form: r.Intn(6) == 0, enc: r.Intn(2) == 0, chunk: vfPickChunk(r)})
 		}
 		for ci, c := range cfgs {
 			tr := (idx-1)*vfCfgPerInput + ci + 1
@@ -1259,11 +1435,12 @@ func TestVerifHtmlTree(t *testing.T) {
 			}
 			var roots []*Node
 			var err error
+			rr := env.Rand(int64(tr)*7919 + 1)
 			res := vfCatchTimeout(10*time.Second, func() {
 				opt := ParseOptionEnableScripting(c.script)
 				if !c.frag {
 					var doc *Node
-					doc, err = ParseWithOptions(bytes.NewReader(in), opt)
+					doc, err = ParseWithOptions(vfReader(in, c.chunk, rr), opt)
 					if doc != nil {
 						roots = []*Node{doc}
 					}
@@ -1280,13 +1457,13 @@ func TestVerifHtmlTree(t *testing.T) {
 						f.AppendChild(context)
 					}
 				}
-				roots, err = ParseFragmentWithOptions(bytes.NewReader(in), context, opt)
+				roots, err = ParseFragmentWithOptions(vfReader(in, c.chunk, rr), context, opt)
 			})
 			if vfEmitFault(env, tr, res) {
 				continue
 			}
 			ev := map[string]any{"e": "parse", "mode": "doc", "ctx": c.ctx.name, "ns": c.ctx.ns, "script": c.script,
-				"err": "none", "render": "none", "rvoid": "-", "nodes": []vfRow{}, "len": len(in)}
+				"err": "none", "render": "none", "rvoid": "-", "nodes": []vfRow{}, "len": len(in), "chunk": c.chunk}
 			if len(in) <= 2000 {
 				ev["input"] = vfInts(in)
 			}
